@@ -69,7 +69,7 @@ func checkC02(c *Ctx) {
 		"error identically (*zerr.Signal Continue -> next pass, Break -> return nil, anything else returned unchanged) and no other function inspects those signal kinds, so a signal reaches exactly the innermost loop; " +
 		"(C02.branch) every condition is asserted *Bool (comma-ok, error otherwise), each branch block is guarded by its own condition's true edge, is followed by a return, and later conditions are evaluated only on the false edges of earlier ones; " +
 		"(C02.dictorder) the dictionary pass walks the key-order list and insert / overwrite / 移除 keep that list in insertion order (same rules as C12.sync); (C02.while) the condition is evaluated on every cycle before the body; (C02.iter) the list pass binds index+1; (C02.last) a block's fall-off value is the last statement's value. " +
-		"NOT decided: termination, what a particular program displays."
+		"Also: on the not-a-boolean edge of every condition assertion the statement ends with an error and evaluates nothing further (…:rejects). NOT decided: termination, what a particular program displays."
 	R.Assumptions = []string{"vm.GetReturnValue reads the return slot of the current call frame (pkg/runtime/vm.go)", "Go's range over a slice visits elements in index order"}
 	u := c.Core()
 	u.buildSSA()
@@ -282,6 +282,41 @@ func checkC02(c *Ctx) {
 			if ta, ok := in.(*ssa.TypeAssert); ok && namedTypeIs(ta.AssertedType, "pkg/value", "Bool") {
 				nb++
 				R.check(assertIsTested(ta), "C02.branch", fmt.Sprintf("%s:bool-assert#%d", fn, nb), u.pos(ta.Pos()), "non-boolean condition is tested and rejected", "condition is asserted *Bool without a test (non-boolean condition would panic)")
+				// the not-a-boolean edge ends the statement with an error: nothing else is evaluated from there
+				rejected, found := true, false
+				for _, r := range *ta.Referrers() {
+					ex, isEx := r.(*ssa.Extract)
+					if !isEx || ex.Index != 1 {
+						continue
+					}
+					for _, d := range f.Blocks {
+						ifi, isIf := d.Instrs[len(d.Instrs)-1].(*ssa.If)
+						if !isIf {
+							continue
+						}
+						cond, neg := ifi.Cond, false
+						if un, isUn := cond.(*ssa.UnOp); isUn && un.Op == token.NOT {
+							cond, neg = un.X, true
+						}
+						if cond != ssa.Value(ex) {
+							continue
+						}
+						found = true
+						notOk := d.Succs[1]
+						if neg {
+							notOk = d.Succs[0]
+						}
+						if reachableAvoiding(notOk, 0, isEval, nil) != nil {
+							rejected = false
+						}
+						for _, rr := range returnsReachable(notOk, 0, nil) {
+							if ev := errorOperand(rr.Ret); ev == nil || isNilConst(ev) {
+								rejected = false
+							}
+						}
+					}
+				}
+				R.check(found && rejected, "C02.branch", fmt.Sprintf("%s:bool-assert#%d:rejects", fn, nb), u.pos(ta.Pos()), "a non-boolean condition ends the statement with an error", "a non-boolean condition is skipped or treated as false: the next condition / branch is still evaluated instead of raising an error")
 			}
 		}
 		// later conditions only on the false edges of the first one
